@@ -751,6 +751,8 @@ class H:
                 ret = (await fn(x=x, k=k)) if is_async and shape != "method" else (
                     (await fn(x, k=k)) if is_async else fn(x, k=k)
                 )
+            if shape == "ctd":
+                ret = rtypes.CTD_RET.pop(lid, None)
         except ResourceNotFound:
             out = "notfound"
         except AsyncResourceError:
